@@ -19,6 +19,7 @@ import (
 	"net"
 	"reflect"
 	"sync"
+	"sync/atomic"
 	"time"
 
 	"github.com/spf13/viper"
@@ -29,7 +30,13 @@ import (
 	"verifharness/p2putil"
 )
 
-const mconnWait = 25 * time.Second
+const mconnWait = 20 * time.Second
+
+// after this many behaviours with a timeout the remaining MConn behaviours are skipped (each costs the full wait;
+// the engine re-runs the first of them in isolation to decide what the timeouts mean)
+const mconnMaxTimeouts = 6
+
+var mconnTimeouts int32
 
 type mmsg struct {
 	id   int
@@ -187,6 +194,14 @@ func (ft *frameTamper) feed(b []byte) []byte {
 }
 
 func runMConn(t *tctx) {
+	if atomic.LoadInt32(&mconnTimeouts) >= mconnMaxTimeouts {
+		t.rep.count("mc_skipped_after_timeouts")
+		return
+	}
+	runMConn1(t)
+}
+
+func runMConn1(t *tctx) {
 	seed := uint64(cfgInt(t.tr, "seed", 1))
 	wrap := cfgStr(t.tr, "wrap", "plain")
 	caps := map[byte]int{}
@@ -335,6 +350,7 @@ func runMConn(t *tctx) {
 	select {
 	case <-sdone:
 	case <-time.After(mconnWait + 15*time.Second):
+		atomic.AddInt32(&mconnTimeouts, 1)
 		t.fail(-1, "timeout", false, "timeout:mconn-send", "Send calls did not return", nil, nil)
 		return
 	}
@@ -410,6 +426,7 @@ func runMConn(t *tctx) {
 			if e != nil {
 				t.fail(-1, "property", true, "NoSpuriousError", fmt.Sprintf("receiver reported %v although no frame was touched", e), nil, nil)
 			} else if len(gotC) < total {
+				atomic.AddInt32(&mconnTimeouts, 1)
 				t.fail(-1, "timeout", true, "Complete:timeout", fmt.Sprintf("%d of %d accepted messages arrived within %v", len(gotC), total, mconnWait), total, len(gotC))
 			}
 			return
@@ -434,6 +451,7 @@ func runMConn(t *tctx) {
 			}
 		}
 		if e == nil {
+			atomic.AddInt32(&mconnTimeouts, 1)
 			t.fail(-1, "timeout", true, "OverCapacity:no-error", fmt.Sprintf("a message over the capacity was accepted for sending but the receiver reported no error within %v", mconnWait), "error", "none")
 		} else {
 			t.rep.count("mc_overcap_errors")
@@ -450,6 +468,7 @@ func runMConn(t *tctx) {
 					miss += fmt.Sprintf(" ch%d:#%d(size %d)", c, idx[c]+1, ms[idx[c]].size)
 				}
 			}
+			atomic.AddInt32(&mconnTimeouts, 1)
 			t.fail(-1, "timeout", true, "Complete:timeout", fmt.Sprintf("%d of %d accepted messages arrived within %v; first missing:%s", len(gotC), total, mconnWait, miss), total, len(gotC))
 			return
 		}
